@@ -34,4 +34,16 @@ var configs = map[string]propCfg{
 		Rule:       "case = one document with exactly one injected syntax error at a known byte offset (K1 invalid literal in value position, K2 garbage where a key must start, K3 wrong character instead of ':', K4 stray character after a nested container in an object) at any depth, newlines at random legal positions, optional preamble with newlines before the root bracket; the cited line must be in the accepted set {lines of the injected token's characters, line of the delimiter that terminates an invalid literal}, counted from byte 0 of the input; cases whose message does not quote the injected token are vacuous and only counted; distinct by document hash",
 		Thresholds: []thresh{{"line_citing_errors", 2000, 150000}, {"kind/K1", 300, 20000}, {"kind/K2", 150, 10000}, {"kind/K3", 150, 10000}, {"kind/K4", 100, 5000}, {"max_line_cited", 8, 15}, {"via_parsefile", 10, 1000}},
 		Assume:     stdAssume},
+	"C05": {Level: "exploration", RaceSmoke: true,
+		Rule:       "case = one program of list operations (constructors, Add, Insert, Replace, Delete, Pop, Clear, Reverse, Sort, SubList, Concat and all observers, boundary-biased valid and invalid arguments) generated against the reference model only, over a heap of 2-5 lists and 0-2 objects nested acyclically with aliasing; after EVERY step every live container is compared with the model through the public API (length, per-slot kind and value, identity of nested containers) and panics are predicted exactly; non-trivial = program with >=5 steps; distinct by FNV-64 of the program text",
+		Thresholds: []thresh{{"evaluations", 1000, 40000}, {"steps", 30000, 2000000}, {"predicted_panics", 1000, 50000}, {"set:ops", 18, 18}, {"hook_spare_capacity_observations", 1000, 50000}},
+		Assume:     append([]string{"Sort is exercised only inside the domain C17 defines and without mixed +0/-0; multi-index Delete only with distinct valid indices"}, stdAssume...)},
+	"C06": {Level: "exploration",
+		Rule:       "case = one program of object operations (NewObject/NewObjectFrom incl. typed maps, Set with duplicate keys / odd counts / non-string keys, Unset, Clear, Merge, Pluck and all observers) with hostile keys (empty, '.', '#', quotes, NUL, non-ASCII) generated against the reference map model over a heap of 2-4 objects and 0-2 lists nested acyclically; after EVERY step every live container is compared with the model through the public API and panics are predicted exactly; nested containers inside Merge/Pluck results may be shared or copied (statement silent) and are adopted; non-trivial = program with >=5 steps; distinct by FNV-64 of the program text",
+		Thresholds: []thresh{{"evaluations", 1000, 40000}, {"steps", 30000, 2000000}, {"predicted_panics", 1000, 50000}, {"set:ops", 20, 20}},
+		Assume:     stdAssume},
+	"C07": {Level: "exploration",
+		Rule:       "case = a pair of trees that differ by exactly one edit at a random depth (look-alike kind swap, scalar nudged incl. floats by 1..6000 ulp, key renamed with the count kept, element appended/removed, two elements swapped, keys re-inserted in permuted order, nil swapped) built separately through random construction routes, or a triple from a small pool; Equals must equal typed structural equality of the generating trees in both directions, be reflexive, hold for a separately built copy, never panic and leave both operands unchanged; triples check transitivity; distinct by canonical pair hash",
+		Thresholds: []thresh{{"evaluations", 4000, 200000}, {"equal_pairs", 500, 20000}, {"unequal_pairs", 2000, 100000}, {"transitive_premises", 100, 5000}},
+		Assume:     append([]string{"NaN-free data; plain (non-derived) containers"}, stdAssume...)},
 }
